@@ -13,12 +13,13 @@
    TLC explores (1) for every case of (2): Init chooses the case, Next consumes one event. *)
 EXTENDS Sem, Ast, Json
 
-Kinds == {"list", "dict"}
+Kinds == {"list", "dict", "set"}
 Conses == {"for", "compr", "dictcompr", "sortedkey", "minkey", "selfextend"}
 Vias == {"name", "alias", "box"}
 Exits == {"attempt", "attempt_outer", "exhaust", "break", "return", "error"}
 MutsOf(kind) ==
     IF kind = "list" THEN {"append", "extend", "insert", "pop", "remove", "clear", "setitem", "augadd", "augitem"}
+    ELSE IF kind = "set" THEN {"add", "remove", "discard", "spop", "clear", "supdate"}
     ELSE {"setnew", "setold", "pop", "setdefault", "update", "clear", "augitem"}
 
 K_a == <<97>>
@@ -27,6 +28,7 @@ K_c == <<99>>
 K_z == <<122>>
 
 Container(kind) == IF kind = "list" THEN AList(<<AInt(1), AInt(2), AInt(3)>>)
+                   ELSE IF kind = "set" THEN ACall(AVar("set"), <<AList(<<AInt(1), AInt(2), AInt(3)>>)>>)
                    ELSE ADict(<<AStr(K_a), AStr(K_b), AStr(K_c)>>, <<AInt(1), AInt(2), AInt(3)>>)
 
 Path(via) == IF via = "name" THEN AVar("xs") ELSE IF via = "alias" THEN AVar("ys") ELSE AIndex(AVar("box"), AInt(0))
@@ -45,6 +47,13 @@ Mut(kind, mut, via) ==
          ELSE IF mut = "setitem" THEN SAssign(TIndex(T, AInt(0)), AInt(9))
          ELSE IF mut = "augadd" THEN SAug("+", PathT(via), AList(<<AInt(9)>>))
          ELSE SAug("+", TIndex(T, AInt(0)), AInt(1)))
+    ELSE IF kind = "set" THEN
+        (IF mut = "add" THEN SExpr(AMCall(T, "add", <<AInt(9)>>))
+         ELSE IF mut = "remove" THEN SExpr(AMCall(T, "remove", <<AInt(2)>>))
+         ELSE IF mut = "discard" THEN SExpr(AMCall(T, "discard", <<AInt(2)>>))
+         ELSE IF mut = "spop" THEN SExpr(AMCall(T, "pop", <<>>))
+         ELSE IF mut = "clear" THEN SExpr(AMCall(T, "clear", <<>>))
+         ELSE SExpr(AMCall(T, "update", <<AList(<<AInt(8), AInt(9)>>)>>)))
     ELSE
         (IF mut = "setnew" THEN SAssign(TIndex(T, AStr(K_z)), AInt(9))
          ELSE IF mut = "setold" THEN SAssign(TIndex(T, AStr(K_a)), AInt(9))
@@ -126,12 +135,13 @@ Valid(c) ==
     /\ (c.cons = "compr" => c.exit \in {"attempt", "exhaust", "error"} /\ c.depth <= 2)
     /\ (c.cons = "dictcompr" => c.exit \in {"attempt", "exhaust", "error"} /\ c.depth = 1)
     /\ (c.cons \in {"sortedkey", "minkey", "selfextend"} => c.exit = "attempt" /\ c.depth = 1)
-    /\ (c.cons = "selfextend" => c.mut \in {"extend", "update"})
+    /\ (c.cons = "selfextend" => c.mut \in {"extend", "update", "supdate"})
+    /\ (c.kind = "set" => c.cons # "dictcompr" \/ TRUE)
     /\ (c.exit = "attempt_outer" => c.depth >= 2)
     /\ (c.direct => c.exit \in {"attempt", "attempt_outer"})
 
 CONSTANT MaxDepth
-Cases == {c \in [kind : Kinds, cons : Conses, mut : MutsOf("list") \cup MutsOf("dict"), via : Vias,
+Cases == {c \in [kind : Kinds, cons : Conses, mut : MutsOf("list") \cup MutsOf("dict") \cup MutsOf("set"), via : Vias,
                  exit : Exits, depth : 1..MaxDepth, direct : BOOLEAN] : Valid(c)}
 
 Expected(c) == RunSession(Session(c), 50, TRUE)
@@ -169,6 +179,7 @@ LocksBalanced == (i > 1 /\ evs[i - 1].e = "chunk_end") => \A a \in DOMAIN lock :
 MutableAgain == exp[4].kind \notin {"iter_mutation", "immutable"}
 EI(v) == [t |-> "int", v |-> v]
 OrigEnc(kind) == IF kind = "list" THEN [t |-> "list", v |-> <<EI(1), EI(2), EI(3)>>]
+                 ELSE IF kind = "set" THEN [t |-> "set", v |-> <<EI(1), EI(2), EI(3)>>]
                  ELSE [t |-> "dict", k |-> <<[t |-> "str", s |-> K_a], [t |-> "str", s |-> K_b], [t |-> "str", s |-> K_c]>>,
                                      v |-> <<EI(1), EI(2), EI(3)>>]
 Intact == (exp[2].kind = "iter_mutation") => exp[3].out[1] = OrigEnc(case.kind)
